@@ -467,6 +467,14 @@ Definition trk_op (k : tkind) (p : pspec) (acc : outcome (tstate * list bytes)) 
         | _, _, _, _, _, _, _ => Err bad
         end
       else Err bad
+  | SList [Atom name; arg; _] =>
+      (* (sfilter <text> <pan>): the filter on a String field of the same spec holding the text; the object is not involved *)
+      if bytes_eqb name (S' "sfilter") then
+        match as_hex arg with
+        | Some v => Ok (t, show_hex (s_track_filter k p v v) :: out)
+        | None => Err bad
+        end
+      else Err bad
   | SList [Atom name; arg] =>
       if bytes_eqb name (S' "unpack") then
         match as_hex arg with
